@@ -390,6 +390,7 @@ static int mode_stdin(void) {
   return 0;
 }
 
+#ifndef NO_MAIN
 int main(int argc, char **argv) {
   signal(SIGVTALRM, on_vtalrm);
   g_trace = getenv("DRIVER_TRACE");
@@ -399,3 +400,4 @@ int main(int argc, char **argv) {
   fprintf(stderr, "usage: see source\n");
   return 2;
 }
+#endif
